@@ -83,12 +83,15 @@ def run_driver(ctx, tb, out, env):
 def validate_chunks(ctx, path, nchunks, workers, label):
     rows = common.read_ndjson(path)
     cases = split_cases(rows)
-    nchunks = max(1, min(nchunks, len(cases)))
-    per = (len(cases) + nchunks - 1) // nchunks
+    # a case that ends in "Hang" (View.Set did not return: driver watchdog) is no behaviour of the spec; it is
+    # reported on its own, with its stable key, by run(); the other cases are validated as usual
+    vcases = [c for c in cases if c[-1]["ev"] != "Hang"]
+    nchunks = max(1, min(nchunks, len(vcases)))
+    per = (len(vcases) + nchunks - 1) // nchunks
     d = ctx.subdir("chunks_" + label)
     jobs = []
-    for i in range(0, len(cases), per):
-        chunk = [r for c in cases[i:i + per] for r in c]
+    for i in range(0, len(vcases), per):
+        chunk = [r for c in vcases[i:i + per] for r in c]
         p = os.path.join(d, "chunk%03d.ndjson" % (i // per))
         with open(p, "w") as f:
             for r in chunk:
@@ -224,6 +227,10 @@ def run_state_level(ctx, violations):
         if not line or line > len(chunk):
             raise InfraError("state-level trace rejected outside the chunk")
         bad = chunk[line - 1]
+        if bad["ev"] == "Other":
+            # this registry's stored databag moved during a request on the OTHER registry: that is exactly what
+            # the byte comparison (b) below reports, with its stable key
+            continue
         start = line - 1
         while chunk[start]["ev"] != "Reset":
             start -= 1
@@ -250,8 +257,8 @@ def run_state_level(ctx, violations):
                         violations.append(Violation(
                             key=key,
                             desc="%s: call %s on registry %r turned the stored databag of registry %r from %s into %s "
-                                 "(overlord/registrystate/registrystate.go:updateDatabags replaces the whole "
-                                 "\"registry-databags\" map when the written registry has no databag yet)" % (
+                                 "(regression of the defect fixed in 080142a: overlord/registrystate/registrystate.go:"
+                                 "updateDatabags must only create the missing map levels)" % (
                                      key, e["call"], e["reg"], name, raw, cur.get(name)),
                             replay={"calls": [x["call"] for x in c if "call" in x and x.get("last_of_call")][:20],
                                     "event": e}))
@@ -362,8 +369,8 @@ def run(ctx):
         violations.append(Violation(
             key=hang_key,
             desc="%s. Exact input: %s ; %s (registry/registry.go:checkForUnusedBranches, the loop that builds the "
-                 "\"value contains unused data under\" message never advances on an empty map; the request "
-                 "should be rejected as a bad request). History: %s" % (
+                 "\"value contains unused data under\" message must stop at an empty map: regression of the defect "
+                 "fixed in c238b8d; the request must be rejected as a bad request). History: %s" % (
                      hang_key, op_str(c[0]), op_str(c[-1]), " ; ".join(op_str(e) for e in c)),
             replay={"script": hscript, "observed": again[-1]}))
 
